@@ -143,6 +143,13 @@ theorem not_refused_unaffected {W O : Type} (env : Env W O) (w : W) (chunks : Li
   rw [Session.run_eq_runStream, Session.run_eq_runStream]
   exact Session.core_not_refused env w _ _ h
 
+/-- (12) When a user is disconnected every other registered client is told that this user ID left,
+    and the user is gone from the registry — also when the user never sent a name or has not agreed
+    yet (`c.name = []`, `c.agreed = false`): it is listed, so it must be de-listed for the others. -/
+theorem others_are_told_user_left (live : List Client) (c o : Client) (ho : o ∈ live) (hne : o.id ≠ c.id) :
+    (o.id, c.id) ∈ (disconnect live c).2 ∧ ∀ x ∈ (disconnect live c).1, x.id ≠ c.id :=
+  ⟨disconnect_tells_all_others live c o ho hne, disconnect_removes live c⟩
+
 /-- The permanent / temporary wording of the notice follows the entry. -/
 theorem notice_kind (s : Store) (a : Bytes) : permanent s a = true ↔ s.lookup a = some none := by
   unfold permanent
@@ -159,6 +166,7 @@ theorem generated_banfile_add_atomic :
     ∀ s ∈ Generated.lockSites, s.1 = "mobius.BanFile.Add" → s.2.2.1 = true := by decide
 
 -- non-vacuity: concrete instances
+example : (disconnect [⟨1, [97], true⟩, ⟨2, [], false⟩, ⟨3, [98], true⟩] ⟨2, [], false⟩).2 = [(1, 2), (3, 2)] := by decide
 example : (Store.empty.add [49, 46, 50] none).lookup [49, 46, 50] = some none := by decide
 example : ((Store.empty.add [49, 46, 50] none).add [49, 46, 51] (some 100)).lookup [49, 46, 51] = some (some 100) := by decide
 example : refused ((Store.empty.add [49, 46, 50] none).add [49, 46, 51] (some 100)) [49, 46, 51] 99 = true := by decide
